@@ -13,6 +13,11 @@ pub enum Case {
     /// a run of `r` consecutive business-calendar holidays starting `start` days after 2024-02-26 (Sat-Sun mask),
     /// settlement calendar closed on the first `b` weekdays after the run
     Run { r: i64, start: i64, b: i64 },
+    /// a closure of more than 65 535 consecutive days from 1975-01-02: counts from the days around its two ends
+    HugeRun { r: i64 },
+    /// a union with a settlement calendar created on one fresh thread and used on another fresh thread, on which a
+    /// different union (other settlement closures) was created at the same point of that thread's life and used first
+    CrossThread { warmup: usize },
     /// named calendar; start dates from..=to (day numbers), day counts: all i8 or the reduced menu
     Named { name: String, from: i64, to: i64, all_counts: bool },
 }
@@ -307,6 +312,68 @@ pub fn check(case: &Case, idx: u64, acc: &mut Acc) {
                 acc.sample(|| serde_json::to_value(case).unwrap());
             }
         }
+        Case::CrossThread { warmup } => {
+            let z0 = days_from_civil(2023, 6, 12); // a Monday
+            let wu = *warmup;
+            let mk = move |settle_closed: Vec<i64>| -> UnionCal {
+                for _ in 0..wu {
+                    let _ = UnionCal::new(vec![Cal::new(vec![], vec![5, 6])], Some(vec![Cal::new(vec![], vec![5, 6])]));
+                }
+                UnionCal::new(vec![Cal::new(vec![], vec![5, 6])], Some(vec![Cal::new(settle_closed.iter().map(|z| to_ndt(*z)).collect(), vec![5, 6])]))
+            };
+            let a_closed = vec![z0 + 7, z0 + 8]; // next Monday, Tuesday
+            let b_closed = vec![z0 + 2, z0 + 9]; // this Wednesday, next Wednesday
+            let ac = a_closed.clone();
+            let a = std::thread::spawn(move || mk(ac)).join().expect("thread 1");
+            let mk2 = move |settle_closed: Vec<i64>| -> UnionCal {
+                for _ in 0..wu {
+                    let _ = UnionCal::new(vec![Cal::new(vec![], vec![5, 6])], Some(vec![Cal::new(vec![], vec![5, 6])]));
+                }
+                UnionCal::new(vec![Cal::new(vec![], vec![5, 6])], Some(vec![Cal::new(settle_closed.iter().map(|z| to_ndt(*z)).collect(), vec![5, 6])]))
+            };
+            let bc = b_closed.clone();
+            // thread 2 builds its own union, uses it from every date, then uses the union that came from thread 1
+            let results: Vec<(i64, i8, bool, Option<i64>)> = std::thread::spawn(move || {
+                let b = mk2(bc);
+                let mut out = vec![];
+                for z in z0 - 1..=z0 + 12 {
+                    for n in [-3i8, -1, 0, 1, 2, 3, 5] {
+                        let _ = b.add_bus_days(&to_ndt(z), n, true);
+                        let _ = b.lag(&to_ndt(z), n, true);
+                    }
+                }
+                for z in z0 - 1..=z0 + 12 {
+                    for n in [-3i8, -1, 0, 1, 2, 3, 5] {
+                        out.push((z, n, true, a.add_bus_days(&to_ndt(z), n, true).ok().map(|d| from_ndt(&d))));
+                        out.push((z, n, false, Some(from_ndt(&a.lag(&to_ndt(z), n, true)))));
+                    }
+                }
+                out
+            })
+            .join()
+            .expect("thread 2");
+            // expected: the same union built and used on this thread only (its arithmetic is judged by the other cases)
+            let fresh = UnionCal::new(vec![Cal::new(vec![], vec![5, 6])], Some(vec![Cal::new(a_closed.iter().map(|z| to_ndt(*z)).collect(), vec![5, 6])]));
+            acc.nontrivial();
+            for (z, n, is_add, got) in results {
+                acc.eval();
+                let want = if is_add { fresh.add_bus_days(&to_ndt(z), n, true).ok().map(|d| from_ndt(&d)) } else { Some(from_ndt(&fresh.lag(&to_ndt(z), n, true))) };
+                if got != want {
+                    acc.violate(if is_add { "cross-thread/add_bus_days" } else { "cross-thread/lag" }, idx, serde_json::to_value(case).unwrap(), json!({"date": fmt_day(z), "n": n, "want": want.map(fmt_day)}), json!(got.map(fmt_day)));
+                }
+            }
+            acc.sample(|| serde_json::to_value(case).unwrap());
+        }
+        Case::HugeRun { r } => {
+            let z0 = days_from_civil(1975, 1, 2);
+            let c = Cal::new((0..*r).map(|i| to_ndt(z0 + i)).collect(), vec![5, 6]);
+            let bm = Bitmap::from_fn(z0 - 700, z0 + r + 700, |z| (weekday(z) < 5 && !(z >= z0 && z < z0 + r), true));
+            let ns = counts(false);
+            acc.nontrivial();
+            check_cal(&c, &bm, z0 - 2, z0, &ns, false, "Cal/huge-run", case, idx, acc);
+            check_cal(&c, &bm, z0 + r - 1, z0 + r + 1, &ns, false, "Cal/huge-run", case, idx, acc);
+            acc.sample(|| serde_json::to_value(case).unwrap());
+        }
         Case::Run { r, start, b } => {
             let z0 = days_from_civil(2024, 2, 26) + start;
             let order: Vec<i64> = match start % 3 {
@@ -386,6 +453,10 @@ pub fn cases(tier: Tier) -> Vec<Case> {
             }
         }
     }
+    out.push(Case::HugeRun { r: 65_600 });
+    for warmup in 0..4usize {
+        out.push(Case::CrossThread { warmup });
+    }
     for r in [12i64, 35, 64, 367, 430] {
         for start in 0..7 {
             for b in [0i64, 3] {
@@ -438,8 +509,8 @@ pub fn run(ctx: &Ctx, replay_file: Option<String>) -> ! {
          window, on top of periodic week masks for the business calendar (none, Sat-Sun, Fri-Sat, Mon-Fri closed) and \
          the settlement calendar (absent, Sat-Sun, Sun+Mon, none); EVERY i8 day count, both settlement flags, every \
          start date of the window +-1: add_bus_days (value, error on a non-business start, inverse law), lag, \
-         add_days under all 5 modifiers, bus_date_range and cal_date_range for every (start, end) pair; every fifth case also as a union whose members (and settlement calendars) each close only some of the weekdays; the holiday vector is handed over in date order, reversed, interleaved or with every date twice (by case index). (1b) long runs of 12, 35, 64, 367 and 430 consecutive closures at every weekday alignment, every i8 count from the days \
-         around both ends of the run. (2) named calendars (those with settlement calendars also wrapped in the CalType container): every date \
+         add_days under all 5 modifiers, bus_date_range and cal_date_range for every (start, end) pair; every fifth case also as a union whose members (and settlement calendars) each close only some of the weekdays; the holiday vector is handed over in date order, reversed, interleaved or with every date twice (by case index). (1b) long runs of 12, 35, 64, 367 and 430 (and one of 65 600) consecutive closures at every weekday alignment, every i8 count from the days \
+         around both ends of the run. (1c) a union built on one fresh thread and used on another on which a different union was built and used first. (2) named calendars (those with settlement calendars also wrapped in the CalType container): every date \
          of several years x every i8; every built-in calendar over every date 1970-2200 x a reduced count menu \
          (|n|<=10 and +-20,63,64,100,126,127,-128). Oracle: index arithmetic on the sorted list of the calendar's own \
          business days, then linear search for the first settleable day in the direction of n. Non-trivial: calls \
